@@ -1,17 +1,23 @@
 ------------------------------- MODULE System -------------------------------
-(* The composed machine as Teakra::Impl wires it (teakra.cpp): core + ICU + two timers + (audio port,    *)
-(* mailboxes: added through the same MMIO table) behind the MMIO window, one operator per thing that     *)
-(* happens: Cycle (one emulated cycle: CoreCycle, then the MMIO effects of the instruction in access      *)
-(* order, then the peripheral tick in registration order timer0, timer1, btdmp0, btdmp1), the skip logic  *)
-(* of Interpreter::Run exactly as coded (RunAsCoded) next to the plain n-fold Cycle, Reset, host calls.   *)
+(* The composed machine as Teakra::Impl wires it (teakra.cpp): core + ICU + two timers + two audio ports  *)
+(* + the two mailbox blocks behind the MMIO window, one operator per thing that happens: Cycle (one       *)
+(* emulated cycle: CoreCycle, then the MMIO effects of the instruction in access order, then the          *)
+(* peripheral tick in registration order timer0, timer1, btdmp0, btdmp1), HostCall (the host API between  *)
+(* Run calls), SysReset.  There is deliberately no fast-forward here: the skip logic of Interpreter::Run  *)
+(* is modelled in RunModel.tla and compared with plain cycles there.                                       *)
 (*                                                                                                        *)
 (* y = [ c  |-> core state (TeakMachine), tm |-> <<timer0, timer1>> (TimerOps records),                    *)
 (*       icu |-> [req, en (3 words), ven, vlo, vhi, vctx (16 each)],                                       *)
+(*       bt |-> <<btdmp0, btdmp1>> (Btdmp records), ap |-> [fc |-> apbp_from_cpu, fd |-> apbp_from_dsp],           *)
 (*       cells |-> plain-storage MMIO cells written so far (offset -> value),                              *)
 (*       ev |-> ordered callback/event log ]                                                               *)
 EXTENDS TeakCore
 
 TM == INSTANCE TimerOps WITH B <- 65536, FixedSkipZero <- TRUE
+\* audio ports and mailboxes: the operators of the component modules (their own state machines are not used)
+BT == INSTANCE Btdmp WITH Cap <- 16, TW <- 65536, ResetPeriod <- 4096, FixedSkipOverrun <- TRUE, Vals <- {}, Periods <- {},
+                          Clocks <- {}, K <- 0, G <- 0, PhaseKept <- FALSE, s <- 0, ev <- 0, outc <- 0, gin <- 0, gout <- 0, gpad <- 0
+AP == INSTANCE Apbp WITH NCh <- 3, Data <- 0 .. 65535, SemW <- 16, FixedMask <- TRUE
 
 IrqTimer0 == 10  IrqTimer1 == 9  IrqBtdmp == 11  IrqApbp == 14  IrqDma == 15
 
@@ -48,6 +54,85 @@ IsIcuOff(off) == off \in {512, 514, 516, 518, 520, 522, 524} \/ (off >= 530 /\ o
 CellVal(y, off) == IF off \in DOMAIN y.cells THEN y.cells[off] ELSE 0
 SetCell(y, off, v) == [y EXCEPT !.cells = (off :> v) @@ @]
 
+\* --- memory interface unit (memory_interface.h, MMIO 0x10E-0x11E) ------------------------------------------------
+MiuRead(y, off) ==
+    LET m == y.c.miu IN
+    CASE off = 270 -> m.xp [] off = 272 -> m.yp [] off = 274 -> m.z
+      [] off = 276 -> (CellVal(y, 276) & (65535 - 63 - 63 * 256)) + m.xs[1] + 256 * m.ys[1]
+      [] off = 278 -> (CellVal(y, 278) & (65535 - 63 - 63 * 256)) + m.xs[2] + 256 * m.ys[2]
+      [] off = 282 -> (CellVal(y, 282) & (65535 - 64)) + 64 * m.pm
+      [] off = 286 -> m.base
+\* (a guest write has already acted on y.c.miu inside the instruction, see TeakMachine!RawWrite; applying it again is
+\* idempotent; a host write through MMIOWrite acts here)
+MiuWrite(y, off, v) ==
+    LET y1 == [y EXCEPT !.c.miu = MiuApply(@, off, v)] IN
+    IF off \in {276, 278, 282} THEN SetCell(y1, off, v) ELSE y1
+
+\* --- mailboxes (apbp.cpp, MMIO 0x0C0-0x0D8; wiring of teakra.cpp) -------------------------------------------
+IsApbpOff(off) == off \in {192, 194, 196, 198, 200, 202, 204, 206, 208, 210, 212, 214, 216}
+\* the host's callbacks as they are invoked, in order (y.ev): integer triples
+EvAudio(l, r) == <<0, l, r>>     \* audio callback with one stereo frame (samples as unsigned 16-bit numbers)
+EvRecv(c)     == <<1, c, 0>>     \* receive-data handler of reply channel c
+EvSem         == <<2, 0, 0>>     \* semaphore handler
+Ev(y, e) == [y EXCEPT !.ev = Append(@, e)]
+\* an operation on apbp_from_cpu: every handler of it is icu.TriggerSingle(0xE)
+RECURSIVE TrigN(_, _)
+TrigN(y, n) == IF n = 0 THEN y ELSE TrigN(IcuTrigger(y, 2 ^ IrqApbp), n - 1)
+WireFc(y, r) == TrigN([y EXCEPT !.ap.fc = r.s], Len(r.hc))
+\* an operation on apbp_from_dsp: its handlers are the host's callbacks (logged as events)
+RECURSIVE HostCb(_, _, _)
+HostCb(y, hc, j) == IF j > Len(hc) THEN y ELSE HostCb(Ev(y, IF hc[j] = AP!SEMH THEN EvSem ELSE EvRecv(hc[j])), hc, j + 1)
+WireFd(y, r) == HostCb([y EXCEPT !.ap.fd = r.s], r.hc, 1)
+ApbpCfgMask == 256 + 4096 + 8192
+ApbpRead(y, off) ==
+    LET fc == y.ap.fc  fd == y.ap.fd IN
+    CASE off \in {192, 196, 200} -> fd.dat[(off - 192) \div 4]                      \* reply register: PeekData
+      [] off \in {194, 198, 202} -> fc.dat[(off - 194) \div 4]                      \* command register: RecvData (clears ready)
+      [] off = 204 -> fd.sem
+      [] off = 206 -> fc.msk
+      [] off = 208 -> 0
+      [] off = 210 -> fc.sem
+      [] off = 212 -> (CellVal(y, 212) & (65535 - ApbpCfgMask)) + 256 * fc.dis[0] + 4096 * fc.dis[1] + 8192 * fc.dis[2]    \* dis is 0/1 here: only this register sets it
+      [] off = 214 -> (CellVal(y, 214) & (65535 - (32 + 64 + 128 + 256 + 512 + 4096 + 8192)))
+                      + 32 * fd.rdy[0] + 64 * fd.rdy[1] + 128 * fd.rdy[2] + 256 * fc.rdy[0] + 512 * fc.sig + 4096 * fc.rdy[1] + 8192 * fc.rdy[2]
+      [] off = 216 -> (CellVal(y, 216) & (65535 - (512 + 1024 + 2048 + 4096 + 8192 + 16384 + 32768)))
+                      + 512 * fc.sig + 1024 * fd.rdy[0] + 2048 * fd.rdy[1] + 4096 * fd.rdy[2] + 8192 * fc.rdy[0] + 16384 * fc.rdy[1] + 32768 * fc.rdy[2]
+ApbpWrite(y, off, v) ==
+    CASE off \in {192, 196, 200} -> WireFd(y, AP!SendData(y.ap.fd, (off - 192) \div 4, v))
+      [] off \in {194, 198, 202, 210} -> y
+      [] off = 204 -> WireFd(y, AP!SetSemaphore(y.ap.fd, v))
+      [] off = 206 -> WireFc(y, AP!MaskSemaphore(y.ap.fc, v))
+      [] off = 208 -> WireFc(y, AP!ClearSemaphore(y.ap.fc, v))
+      [] off = 212 -> SetCell([y EXCEPT !.ap.fc.dis = (0 :> Bit(v, 8)) @@ (1 :> Bit(v, 12)) @@ (2 :> Bit(v, 13))], 212, v)
+      [] off \in {214, 216} -> SetCell(y, off, v)
+\* reading a command register is a receive
+ApbpReadEffect(y, off) == IF off \in {194, 198, 202} THEN [y EXCEPT !.ap.fc = AP!RecvData(y.ap.fc, (off - 194) \div 4).s] ELSE y
+
+\* --- audio ports (btdmp.cpp, MMIO 0x2A0.. and 0x320..) -------------------------------------------------------
+BtOf(off) == IF off >= 800 THEN 1 ELSE 0
+BtReg(off) == off - 672 - 128 * BtOf(off)
+IsBtdmpOff(off) == off >= 672 /\ off < 928 /\ BtReg(off) \in {2, 30, 34, 38, 42}
+BtdmpRead(y, off) ==
+    LET b == y.bt[BtOf(off) + 1]  k == BtReg(off) IN
+    CASE k = 2 -> b.cc [] k = 30 -> b.en
+      [] k = 34 -> (CellVal(y, off) & (65535 - 24)) + 8 * b.fu + 16 * b.em
+      [] k = 38 -> CellVal(y, off)
+      [] k = 42 -> 0
+BtdmpWrite(y, off, v) ==
+    LET i == BtOf(off)  b == y.bt[i + 1]  k == BtReg(off) IN
+    CASE k = 2 -> [y EXCEPT !.bt[i + 1] = BT!SetClockOp(b, v).s]
+      [] k = 30 -> [y EXCEPT !.bt[i + 1] = BT!SetEnableOp(b, v).s]
+      [] k = 34 -> SetCell(y, off, v)
+      [] k = 38 -> [y EXCEPT !.bt[i + 1] = BT!SendOp(b, v).s]
+      [] k = 42 -> [y EXCEPT !.bt[i + 1] = BT!FlushOp(b, v).s]
+\* Btdmp::Tick of port i: interrupt -> IRQ 11; the audio callback is installed on port 0 only
+RECURSIVE BtEvents(_, _, _, _)
+BtEvents(y, i, evs, j) ==
+    IF j > Len(evs) THEN y
+    ELSE IF evs[j] = BT!IRQ THEN BtEvents(IcuTrigger(y, 2 ^ IrqBtdmp), i, evs, j + 1)
+    ELSE BtEvents(IF i = 0 THEN Ev(y, EvAudio(evs[j][2], evs[j][3])) ELSE y, i, evs, j + 1)
+TickBtdmp(y, i) == LET r == BT!TickOp(y.bt[i + 1]) IN BtEvents([y EXCEPT !.bt[i + 1] = r.s], i, r.ev, 1)
+
 TimerCfgRead(y, i) ==
     LET t == y.tm[i + 1]  raw == CellVal(y, 32 + 16 * i)
         keep == raw & (65535 - (3 + 28 + 256 + 512 + 1024))     \* bits not overlaid by a getter
@@ -71,6 +156,9 @@ MmioRead(y, off) ==
               IN  (raw & (65535 - 3 - 32768)) + y.icu.vhi[i] + 32768 * y.icu.vctx[i]
     ELSE IF off >= 532 /\ off < 596 /\ off % 4 = 0 THEN y.icu.vlo[(off - 532) \div 4 + 1]
     ELSE IF off = 26 THEN 51458                                  \* chip detect 0xC902
+    ELSE IF IsMiuOff(off) THEN MiuRead(y, off)
+    ELSE IF IsApbpOff(off) THEN ApbpRead(y, off)
+    ELSE IF IsBtdmpOff(off) THEN BtdmpRead(y, off)
     ELSE CellVal(y, off)
 
 \* interrupt of timer i through the ICU
@@ -101,16 +189,16 @@ MmioWrite(y, off, v) ==
               IN  SetCell([y EXCEPT !.icu.vhi[i] = v % 4, !.icu.vctx[i] = Bit(v, 15)], off, v)
     ELSE IF off >= 532 /\ off < 596 /\ off % 4 = 0 THEN [y EXCEPT !.icu.vlo[(off - 532) \div 4 + 1] = v]
     ELSE IF off = 26 THEN y
+    ELSE IF IsMiuOff(off) THEN MiuWrite(y, off, v)
+    ELSE IF IsApbpOff(off) THEN ApbpWrite(y, off, v)
+    ELSE IF IsBtdmpOff(off) THEN BtdmpWrite(y, off, v)
     ELSE SetCell(y, off, v)
 
 \* offsets bound by mmio.cpp to peripherals this module does not (yet) model: a program touching one makes
 \* the specification decline the trace (outcome "unmodelled"); it never guesses.  Everything else is a timer
 \* or ICU register (above), the chip-detect constant, or a plain storage cell.
-UnmodelledOff(off) == \/ off \in 192 .. 217            \* APBP
-                   \/ off \in 224 .. 243            \* AHBM
-                   \/ off \in {270, 272, 274, 276, 278, 282, 286}   \* MIU
+UnmodelledOff(off) == \/ off \in 224 .. 243            \* AHBM
                    \/ off \in {388, 396} \/ off \in 446 .. 479      \* DMA
-                   \/ off \in 674 .. 843            \* BTDMP
 Modelled(off) == ~ UnmodelledOff(off)
 
 -----------------------------------------------------------------------------
@@ -125,7 +213,7 @@ ApplyMmio(y, acc, j) ==
          IF a[1] \in MmioRange
          THEN (IF ~ Modelled(a[1] - MmioBase) THEN [y EXCEPT !.c = Fail(y.c, "unmodelled")]
                ELSE IF a[2] = 1 THEN ApplyMmio(MmioWrite(y, a[1] - MmioBase, a[3]), acc, j + 1)
-               ELSE ApplyMmio(y, acc, j + 1))
+               ELSE ApplyMmio(ApbpReadEffect(y, a[1] - MmioBase), acc, j + 1))
          ELSE ApplyMmio(y, acc, j + 1)
 
 \* the core state for this cycle: MMIO reads return what each register reads now (a lazily evaluated,
@@ -134,8 +222,10 @@ CoreWithMmio(y) == [y.c EXCEPT !.io = [o \in 0 .. 2047 |-> MmioRead(y, o)], !.ac
 EmptyIo == [o \in {} |-> 0]
 StripMmio(c) == [c EXCEPT !.io = EmptyIo]
 
-TickTimers(y) ==
-    LET y1 == ApplyTimer(y, 0, TM!TickOp(y.tm[1])) IN ApplyTimer(y1, 1, TM!TickOp(y1.tm[2]))
+TickTimers(y) ==    \* CoreTiming::Tick in registration order: timer0, timer1, btdmp0, btdmp1
+    LET y1 == ApplyTimer(y, 0, TM!TickOp(y.tm[1]))
+        y2 == ApplyTimer(y1, 1, TM!TickOp(y1.tm[2]))
+    IN  IF y2.c.out # "ok" THEN y2 ELSE TickBtdmp(TickBtdmp(y2, 0), 1)
 
 Cycle(y) ==
     LET c1 == CoreCycle(CoreWithMmio(y))
@@ -143,15 +233,41 @@ Cycle(y) ==
     IN  IF y1.c.out # "ok" THEN y1 ELSE TickTimers(y1)
 
 -----------------------------------------------------------------------------
-(* Interpreter::Run as coded: idle skip through CoreTiming::Skip                                           *)
-TimerHorizon(t) == TM!Horizon(t)                       \* a wide value, INF = <<65536, 0>>
-WMinH(a, b) == IF TM!WLeq(a, b) THEN a ELSE b
-\* CoreTiming::Skip(maximum): ticks = min(maximum, horizons); every component skips that many ticks
-SkipAll(y, maxk) ==       \* maxk: wide value
-    LET k == WMinH(maxk, WMinH(TimerHorizon(y.tm[1]), TimerHorizon(y.tm[2])))
-        r0 == TM!SkipOp(y.tm[1], k)  r1 == TM!SkipOp(y.tm[2], k)
-    IN  [k |-> k, y |-> [y EXCEPT !.tm = <<r0.t, r1.t>>]]
+ApFresh == [rdy |-> (0 :> 0) @@ (1 :> 0) @@ (2 :> 0), dat |-> (0 :> 0) @@ (1 :> 0) @@ (2 :> 0), dis |-> (0 :> 0) @@ (1 :> 0) @@ (2 :> 0),
+            sem |-> 0, msk |-> 0, sig |-> 0]
+ApReset == [fc |-> ApFresh, fd |-> ApFresh]
+
+\* host API calls (teakra.cpp), made between Run calls: [y, ret].  The memory accessors go through the same
+\* MemoryInterface as the guest: MMIO-window accesses have the register's effect, asserts included.
+HostMem(y, c1) == ApplyMmio([y EXCEPT !.c = StripMmio(c1)], c1.acc, 1)
+ReadVal(c1) == IF c1.out = "ok" /\ c1.acc # <<>> THEN c1.acc[Len(c1.acc)][3] ELSE 0
+A32(a) == DataBase + (a % 131072)                 \* DataReadA32 / DataWriteA32: (address & 0x1FFFF) + 0x20000
+HostMmio(y, off) == IF Modelled(off) THEN y ELSE [y EXCEPT !.c = Fail(y.c, "unmodelled")]
+HostCall(y, op, a1, a2) ==
+    CASE op = "SendData"      -> [y |-> WireFc(y, AP!SendData(y.ap.fc, a1, a2)), ret |-> 0]
+      [] op = "RecvData"      -> [y |-> [y EXCEPT !.ap.fd = AP!RecvData(y.ap.fd, a1).s], ret |-> y.ap.fd.dat[a1]]
+      [] op = "PeekRecvData"  -> [y |-> y, ret |-> y.ap.fd.dat[a1]]
+      [] op = "RecvDataIsReady" -> [y |-> y, ret |-> y.ap.fd.rdy[a1]]
+      [] op = "SendDataIsEmpty" -> [y |-> y, ret |-> 1 - y.ap.fc.rdy[a1]]
+      [] op = "SetSemaphore"  -> [y |-> WireFc(y, AP!SetSemaphore(y.ap.fc, a1)), ret |-> 0]
+      [] op = "ClearSemaphore" -> [y |-> [y EXCEPT !.ap.fd = AP!ClearSemaphore(y.ap.fd, a1).s], ret |-> 0]
+      [] op = "MaskSemaphore" -> [y |-> WireFd(y, AP!MaskSemaphore(y.ap.fd, a1)), ret |-> 0]
+      [] op = "GetSemaphore"  -> [y |-> y, ret |-> y.ap.fd.sem]
+      [] op = "DataWrite"     -> [y |-> HostMem(y, DWrite(CoreWithMmio(y), a1, a2)), ret |-> 0]
+      [] op = "DataRead"      -> LET c1 == DRead(CoreWithMmio(y), a1) IN [y |-> HostMem(y, c1), ret |-> ReadVal(c1)]
+      [] op = "DataWriteBypass" -> [y |-> HostMem(y, IF DataPage(y.c, a1) >= 2 THEN Fail(y.c, "assert")
+                                                     ELSE RawWrite(CoreWithMmio(y), DataBase + a1 + 65536 * DataPage(y.c, a1), a2)), ret |-> 0]
+      [] op = "DataReadBypass" -> LET c1 == IF DataPage(y.c, a1) >= 2 THEN Fail(y.c, "assert")
+                                            ELSE RawRead(CoreWithMmio(y), DataBase + a1 + 65536 * DataPage(y.c, a1))
+                                  IN  [y |-> HostMem(y, c1), ret |-> ReadVal(c1)]
+      [] op = "DataWriteA32"  -> [y |-> HostMem(y, RawWrite(CoreWithMmio(y), A32(a1), a2)), ret |-> 0]
+      [] op = "DataReadA32"   -> LET c1 == RawRead(CoreWithMmio(y), A32(a1)) IN [y |-> HostMem(y, c1), ret |-> ReadVal(c1)]
+      [] op = "ProgramWrite"  -> [y |-> HostMem(y, PWrite(CoreWithMmio(y), a1, a2)), ret |-> 0]
+      [] op = "ProgramRead"   -> LET c1 == PRead(CoreWithMmio(y), a1) IN [y |-> HostMem(y, c1), ret |-> ReadVal(c1)]
+      [] op = "MMIOWrite"     -> [y |-> MmioWrite(HostMmio(y, a1 % 2048), a1 % 2048, a2), ret |-> 0]
+      [] op = "MMIORead"      -> [y |-> ApbpReadEffect(HostMmio(y, a1 % 2048), a1 % 2048), ret |-> MmioRead(y, a1 % 2048)]
 
 SysReset(y) ==       \* Teakra::Impl::Reset: memory zeroed, MIU, APBP, timers, AHBM, DMA, BTDMP, processor registers
-    [y EXCEPT !.c.mem = [ph \in {} |-> 0], !.c.io = EmptyIo, !.c.miu = [base |-> 32768, z |-> 0], !.tm = <<TM!ResetState, TM!ResetState>>]
+    [y EXCEPT !.c.mem = [ph \in {} |-> 0], !.c.io = EmptyIo, !.c.miu = MiuReset, !.tm = <<TM!ResetState, TM!ResetState>>,
+              !.bt = <<BT!ResetState, BT!ResetState>>, !.ap = ApReset]
 =============================================================================
